@@ -446,6 +446,18 @@ func C17(p *ir.Program, r *report.R) {
 		cp := p.Func("types", "ValidatorSet.Copy")
 		st := p.Struct("types", "ValidatorSet")
 		got := map[string]string{}
+		// `c := *valSet` copies every field from the field of the same name; later stores override
+		ir.Instrs(cp, func(in ssa.Instruction) {
+			if s, ok := in.(*ssa.Store); ok {
+				if al, isAl := s.Addr.(*ssa.Alloc); isAl && strings.Contains(al.Type().String(), "ValidatorSet") && ir.Render(s.Val) == "*valSet" {
+					for i := 0; i < st.NumFields(); i++ {
+						if _, set := got[st.Field(i).Name()]; !set {
+							got[st.Field(i).Name()] = "valSet." + st.Field(i).Name()
+						}
+					}
+				}
+			}
+		})
 		ir.Instrs(cp, func(in ssa.Instruction) {
 			if s, ok := in.(*ssa.Store); ok {
 				if fa, ok := s.Addr.(*ssa.FieldAddr); ok {
@@ -476,8 +488,15 @@ func C17(p *ir.Program, r *report.R) {
 			{"app", "LinkApplication.getValidators"}, {"app", "LinkApplication.updateCandidatesbyOrder"}, {"app", "LinkApplication.calculateCandidates"}, {"app", "LinkApplication.recoverCandidates"},
 			{"libs/common", "Heap.PushComparable"}, {"libs/common", "Heap.Update"}, {"libs/common", "Heap.Peek"},
 		}
+		nScope := 0
 		for _, s := range scope {
-			fn := p.Func(s.rel, s.fn)
+			fn := p.TryFunc(s.rel, s.fn)
+			if fn == nil {
+				// gone under this name: if its body moved into a helper of a listed function, it is inspected there
+				r.Note("determinism scope: %s.%s not present on this tree", s.rel, s.fn)
+				continue
+			}
+			nScope++
 			name := ir.FuncName(fn)
 			mr := mapRanges(fn)
 			okM := len(mr) == 0
@@ -501,6 +520,7 @@ func C17(p *ir.Program, r *report.R) {
 			})
 			r.Check("K7", "determinism/"+name+"/no-time-rand-go", p.Pos(fn.Pos()), len(bad) == 0, fmt.Sprintf("no wall clock, randomness or goroutine: %v", bad))
 		}
+		r.Check("K7", "determinism/scope", "-", nScope >= len(scope)-2, fmt.Sprintf("%d of %d listed functions present", nScope, len(scope)))
 		// the seed of the candidate shuffle comes from the block
 		cc := p.Func("app", "LinkApplication.calculateCandidates")
 		for _, call := range ir.Calls(cc, "types.CandidateInOrderList.RandomSort") {
